@@ -153,7 +153,7 @@ func construct(s *packet.Session, c cfgT, fname string) built {
 			b = built{obs: "ok unreadable-resave", h: h}
 			return
 		}
-		b = built{obs: "ok " + prefixTok(d.Net1.LAN) + " " + prefixTok(d.Net2.LAN) + " " + lo, h: h, bindings: bs}
+		b = built{obs: "ok " + netTok(d.Net1) + " " + netTok(d.Net2) + " " + lo, h: h, bindings: bs}
 	}()
 	select {
 	case b := <-ch:
